@@ -123,6 +123,9 @@ unsafe fn galloc(l: Layout, mode: usize, zeroed: bool) -> *mut u8 {
     libc::mprotect(base.add(PAGE) as *mut _, body, libc::PROT_READ | libc::PROT_WRITE);
     let right = mode == 1 || (mode == 3 && k % 2 == 0);
     let p = if right { ((base as usize + PAGE + body - size) & !(l.align() - 1)) as *mut u8 } else { base.add(PAGE) };
+    for f in FREED.iter() {
+        let _ = f.compare_exchange(p as usize, 0, SeqCst, SeqCst);
+    }
     for i in 0..N {
         if PTR[i].compare_exchange(0, p as usize, SeqCst, SeqCst).is_ok() {
             BASE[i].store(base as usize, SeqCst);
@@ -136,8 +139,42 @@ unsafe fn galloc(l: Layout, mode: usize, zeroed: bool) -> *mut u8 {
     libc::abort();
 }
 
+/// recently freed guarded blocks: a second free of one of them (a stale owner) is reported
+static FREED: [AtomicUsize; 64] = {
+    const Z: AtomicUsize = AtomicUsize::new(0);
+    [Z; 64]
+};
+static FREED_NEXT: AtomicUsize = AtomicUsize::new(0);
+pub const EXIT_DOUBLE_FREE: i32 = 95;
+
+/// The system allocator may hand out the address of an unmapped guarded block again (large requests are
+/// mmap-ed); such an address is no longer "freed".
+unsafe fn forget_reused(p: *mut u8) -> *mut u8 {
+    if FREED_NEXT.load(SeqCst) != 0 && !p.is_null() {
+        for f in FREED.iter() {
+            let _ = f.compare_exchange(p as usize, 0, SeqCst, SeqCst);
+        }
+    }
+    p
+}
+
+unsafe fn check_double_free(p: *mut u8) {
+    if p.is_null() {
+        return;
+    }
+    for f in FREED.iter() {
+        if f.load(SeqCst) == p as usize {
+            crate::child::log_note("double-free=a guarded block was freed twice (stale owner)");
+            libc::_exit(EXIT_DOUBLE_FREE);
+        }
+    }
+}
+
 unsafe fn gfree(p: *mut u8) -> bool {
     if LIVE_BLOCKS.load(SeqCst) == 0 {
+        if MODE.load(SeqCst) != 0 || FREED_NEXT.load(SeqCst) != 0 {
+            check_double_free(p);
+        }
         return false;
     }
     for i in 0..N {
@@ -147,10 +184,12 @@ unsafe fn gfree(p: *mut u8) -> bool {
             LIVE_BYTES.fetch_sub(SIZE[i].load(SeqCst), SeqCst);
             PTR[i].store(0, SeqCst);
             LIVE_BLOCKS.fetch_sub(1, SeqCst);
+            FREED[FREED_NEXT.fetch_add(1, SeqCst) % 64].store(p as usize, SeqCst);
             libc::munmap(b as *mut _, t);
             return true;
         }
     }
+    check_double_free(p);
     false
 }
 
@@ -158,7 +197,7 @@ unsafe impl GlobalAlloc for G {
     unsafe fn alloc(&self, l: Layout) -> *mut u8 {
         let m = MODE.load(SeqCst);
         if m == 0 {
-            System.alloc(l)
+            forget_reused(System.alloc(l))
         } else {
             galloc(l, m, false)
         }
@@ -166,7 +205,7 @@ unsafe impl GlobalAlloc for G {
     unsafe fn alloc_zeroed(&self, l: Layout) -> *mut u8 {
         let m = MODE.load(SeqCst);
         if m == 0 {
-            System.alloc_zeroed(l)
+            forget_reused(System.alloc_zeroed(l))
         } else {
             galloc(l, m, true)
         }
